@@ -16,6 +16,7 @@ THEOREMS = [
     "C06_rule_equiv_UniqueFragmentNames", "C06_rule_equiv_ValuesOfCorrectType_position",
     "C06_rule_equiv_ExecutableDefinitions", "C06_rule_equiv_SingleFieldSubscriptions", "C06_rule_equiv_KnownTypeNames", "C06_rule_equiv_FragmentsOnCompositeTypes", "C06_rule_equiv_VariablesAreInputTypes", "C06_rule_equiv_ScalarLeafs", "C06_rule_equiv_FieldsOnCorrectType", "C06_rule_equiv_PossibleFragmentSpreads", "C06_rule_equiv_UniqueVariableNames", "C06_rule_equiv_KnownDirectives", "C06_rule_equiv_UniqueDirectivesPerLocation", "C06_rule_equiv_KnownArgumentNames", "C06_rule_equiv_UniqueArgumentNames", "C06_rule_equiv_ProvidedRequiredArguments", "C06_rule_equiv_UniqueInputFieldNames", "C06_rule_equiv_UniqueOperationName_joint", "C06_verdict_partial", "C06_perm_definitions", "C06_perm_selections_arguments", "C06_rename_partial", "C06_rename",
     "C06_rule_equiv_ValuesOfCorrectType", "C06_rule_equiv_VariablesInAllowedPosition", "C06_verdict_25", "C06_perm_definitions_25", "C06_perm_selections_arguments_25", "C06_rename_25",
+    "C06_rule_equiv_OverlappingFieldsCanBeMerged_memo_free", "C06_overlap_reports_only_conflicts", "C06_conflict_free_symmetric", "C06_verdict_26", "C06_perm_definitions_all26",
     "C06_perm_definitions_partial", "C06_perm_selections_arguments_partial", "C06_close_reachability",
 ]
 AXIOMS_OK = []
@@ -26,7 +27,8 @@ EXTRA_HEADER = ""
 SHARD = 30
 LEVEL_NOTE = ("Theorems relate the Gallina model coq/Valid/*.v of the rule visitors (tree with fixes/C05-*.patch and "
               "fixes/C06-*.patch applied) to order-free specification forms in coq/Spec/Valid*.v for 25 of the 26 rules; "
-              "OverlappingFieldsCanBeMerged is tied to the repository by the per-rule correspondence only. The set of rule "
+              "OverlappingFieldsCanBeMerged is related to its own memo-free search (caching proved transparent) and "
+              "otherwise tied to the repository by the per-rule correspondence. The set of rule "
               "labels is obtained by running each rule class alone through the public validators= parameter.")
 RULE = ("base documents = valid-by-construction documents and single labelled violators (26 labels) over generated schemas; "
         "for each base: a permutation of the definitions, of all selection lists, of all argument lists, a consistent renaming "
